@@ -613,6 +613,13 @@ impl<Store: StorageData> DbImpl<Store> {
             self.aliases.remove_key(&mut self.storage, &old_alias)?;
         }
 
+        if let Some(owner) = self.aliases.value(&self.storage, alias)? {
+            self.undo_stack.push(Command::InsertAlias {
+                id: owner,
+                alias: alias.clone(),
+            });
+        }
+
         self.undo_stack.push(Command::RemoveAlias {
             alias: alias.clone(),
         });
